@@ -47,7 +47,7 @@ ASSUMPTIONS = [
 ]
 
 SUBCHECKS = [
-    SubCheck('sets_' + g, A.sets_case(g), A.check_sets_case, A.classify_sets, quick=100,
+    SubCheck('sets_' + g, A.sets_case(g), A.check_sets_case, A.classify_sets, quick=400, thorough=3000,
              doc='partition / content predicates for sets_' + g.replace('loo', 'leave_one_out'))
     for g in A.GENS
 ] + [
